@@ -116,6 +116,11 @@ class SymArray(np.ndarray):
         pass
 
     def __array_ufunc__(self, ufunc, method, *inputs, out=None, **kw):
+        if ufunc is np.matmul and method == "__call__":
+            a, b = inputs
+            if np.ndim(a) > 2 or np.ndim(b) > 2:
+                raise S.SymError("batched matmul on symbolic arrays")
+            return _np_dot(a, b, out=(out[0] if out else None))
         f = _TABLE.get(ufunc)
         if f is None:
             raise S.SymError(f"ufunc {ufunc.__name__} has no symbolic mapping")
